@@ -5,12 +5,12 @@ LEVEL = "model_checking"
 MANIFEST = {
     "engine": "tlc Repo rule table + vh repo C30",
     "technique": "explicit TLA+ three-tree specification (Repo.tla) enumerated exhaustively by TLC over bounded universes; every row is materialised as a real repository and worktree, the go-git operation is run and the projected post-state compared with the specification's allowed outcome",
-    "text": "a non-forced checkout and merge / keep resets (to another commit, and to HEAD itself) must refuse when a path the switch has to write carries unstaged or staged content that would be overwritten (git's two-way merge rule), and when they succeed every local worktree modification and untracked file is still there. Universes: one path with regular/executable/symlink entries (all 625 H/I/W/T combinations), a directory/file conflict pair, two independent paths.",
+    "text": "a non-forced checkout and merge / keep resets (to another commit, to HEAD itself, and keep resets that narrow the sparse set over a worktree with local modifications) must refuse when a path the switch has to write carries unstaged or staged content that would be overwritten (git's two-way merge rule), and when they succeed every local worktree modification and untracked file is still there. Universes: one path with regular/executable/symlink entries (all 625 H/I/W/T combinations), a directory/file conflict pair, two independent paths.",
     "note": "Bounded universes (<= 2 paths, 2 blob contents); submodules, sparse cones (C32) and linked worktrees (C33) are separate; the git leg is sampled within the process budget.",
 }
 ALL = ["reset-hard", "checkout-force", "checkout-force-create", "checkout", "checkout-twin", "checkout-create", "reset-merge", "reset-keep", "add", "add-all", "remove", "move", "clean", "commit"]
 
 
 def run(ctx):
-    ops = ['checkout', 'checkout-twin', 'checkout-create', 'reset-merge', 'reset-keep', 'reset-merge-head', 'reset-keep-head'] or ALL
-    repo_common.run_prop(ctx, "C30", ["one-path-all-kinds+r", "dir-file-conflict+r"], ["one-path-all-kinds+r", "dir-file-conflict+r", "two-paths+r"], ops, 1200)
+    ops = ['checkout', 'checkout-twin', 'checkout-create', 'reset-merge', 'reset-keep', 'reset-merge-head', 'reset-keep-head', 'sparse-keep'] or ALL
+    repo_common.run_prop(ctx, "C30", ["one-path-all-kinds+r", "dir-file-conflict+r", "sparse-dirty"], ["one-path-all-kinds+r", "dir-file-conflict+r", "two-paths+r", "sparse-dirty"], ops, 1200)
